@@ -4,7 +4,9 @@ import (
 	"context"
 	"errors"
 	"fmt"
+	"hash/fnv"
 	"runtime"
+	"sort"
 	"testing"
 	"time"
 
@@ -17,16 +19,104 @@ import (
 
 func init() {
 	Register(&Prop{
-		ID: "C10", Engine: "A", Quick: 12000, Thorough: 300000, Level: "exploration",
-		Rule: "each run = one generated query scenario (select / insert, streamed or not, drawn schema, compression, revisions, read timeout, optional back-pressure) + one cancellation fault: context cancel or deadline expiry at a drawn gate (during handshake write/read, after k client bytes, after server script position p, at scheduler step s, inside callback j), with the server going silent at that instant in half of the runs; free schedule before the cancellation, fair mode after it; distinct = schedule digests; non-trivial = the cancellation fired while Connect or Do was in progress",
-		Run:  runC10,
+		ID: "C10", Engine: "A", Quick: 12000, Thorough: 100000, Level: "exploration",
+		Rule:     "each run = one generated query scenario (select / insert, streamed or not, drawn schema, compression, revisions, read timeout, optional back-pressure) + one cancellation fault: context cancel or deadline expiry at a drawn gate (during handshake write/read, after k client bytes, after server script position p, at scheduler step s, inside callback j), with the server going silent at that instant in half of the runs; free schedule before the cancellation, fair mode after it; distinct = schedule digests; non-trivial = the cancellation fired while Connect or Do was in progress",
+		Run:      runC10,
+		SlowCase: 20 * time.Second,
 	})
 }
 
+// c10Forced pins the scenario and the cancellation gate of one run (gate enumeration).
+type c10Forced struct {
+	scSeed uint64
+	gate   string // none bytes script callback
+	k      int
+	cb     string
+}
+
+type c10Info struct {
+	clientBytes, scriptLen, qStart int
+	calls                          map[string]int
+}
+
 func runC10(t *testing.T, c *choice.Stream, r *Result, opt RunOpt) {
+	if opt.Tier == "thorough" && r.Index%100 == 0 {
+		runC10Enum(t, c, r, opt)
+		return
+	}
+	c10Run(t, c, r, opt, nil)
+}
+
+// runC10Enum: one scenario instance, a cancellation-free run to measure it,
+// then a cancellation at every gate of it: after every client byte (strided
+// for long streams), at every position of the server script, inside every
+// callback invocation; each under its own drawn schedule, server silent or not.
+func runC10Enum(t *testing.T, c *choice.Stream, r *Result, opt RunOpt) {
+	scSeed := uint64(1 + c.Draw("enum.scenario", 1<<31-2))
+	probe := &Result{Prop: r.Prop, Index: r.Index, Seed: r.Seed}
+	info := c10Run(t, c, probe, opt, &c10Forced{scSeed: scSeed, gate: "none"})
+	if probe.Outcome == "harness" || probe.Outcome == "violation" {
+		*r = *probe
+		return
+	}
+	var plan []c10Forced
+	st := max(1, info.clientBytes/300)
+	for k := 0; k <= info.clientBytes; k += st {
+		plan = append(plan, c10Forced{scSeed: scSeed, gate: "bytes", k: k})
+	}
+	for p := 0; p <= info.scriptLen; p++ {
+		plan = append(plan, c10Forced{scSeed: scSeed, gate: "script", k: p})
+	}
+	var names []string
+	for n := range info.calls {
+		names = append(names, n)
+	}
+	sort.Strings(names)
+	for _, n := range names {
+		for j := 1; j <= info.calls[n]; j++ {
+			plan = append(plan, c10Forced{scSeed: scSeed, gate: "callback", k: j, cb: n})
+		}
+	}
+	total := &Result{}
+	dg := fnv.New64a()
+	for i := range plan {
+		sub := &Result{Prop: r.Prop, Index: r.Index, Seed: r.Seed}
+		c10Run(t, c, sub, opt, &plan[i])
+		total.Steps += sub.Steps
+		total.Switches += sub.Switches
+		total.SimMs += sub.SimMs
+		fmt.Fprintf(dg, "%s;", sub.Digest)
+		for k, v := range sub.Fired {
+			for j := 0; j < v; j++ {
+				r.Fire(k)
+			}
+		}
+		if sub.Outcome == "violation" || sub.Outcome == "harness" {
+			fired, probes := r.Fired, r.Probes
+			*r = *sub
+			r.Fired, r.Probes = fired, probes
+			r.Detail = fmt.Sprintf("[gate enumeration: %s %d %s] %s", plan[i].gate, plan[i].k, plan[i].cb, r.Detail)
+			return
+		}
+	}
+	r.Steps, r.Switches, r.SimMs = total.Steps, total.Switches, total.SimMs
+	r.Digest = fmt.Sprintf("%016x", dg.Sum64())
+	r.Evals = len(plan) + 1
+	r.NonTriv = true
+	r.Cell = "enumeration"
+	r.Probe("gates_enumerated")
+	r.Sample = map[string]any{"family": "gate enumeration of one scenario", "scenario": probe.Sample, "client_bytes": info.clientBytes, "gates": len(plan)}
+}
+
+func c10Run(t *testing.T, c *choice.Stream, r *Result, opt RunOpt, forced *c10Forced) (info c10Info) {
 	Bubble(t, c, r, opt, func(e *Env) func() {
-		cf := DrawConf(c)
-		sc := drawQueryScenario(c, cf)
+		scs := c
+		if forced != nil {
+			scs = choice.New(forced.scSeed)
+		}
+		cf := DrawConf(scs)
+		sc := drawQueryScenario(scs, cf)
+		info.scriptLen, info.qStart = len(sc.script), sc.afterHandshake
 		e.Sim.DrawStrategy()
 		stallProb := e.Sim.StallProb
 		e.Sim.StallProb = 0 // no simulator-made delay while the hello is awaited (the hello deadline is C13's subject)
@@ -47,6 +137,19 @@ func runC10(t *testing.T, c *choice.Stream, r *Result, opt RunOpt) {
 		pScript := sc.afterHandshake + c.Draw("gate.script", len(sc.script)-sc.afterHandshake+1)
 		sStep := c.Draw("gate.step", 900)
 		silence := c.Bool("silence", 1, 2)
+		forcedCb, forcedJ := "", 0
+		if forced != nil {
+			useDeadline = false
+			gateName = forced.gate
+			switch forced.gate {
+			case "bytes":
+				kBytes = forced.k
+			case "script":
+				pScript = forced.k
+			case "callback":
+				forcedCb, forcedJ = forced.cb, forced.k
+			}
+		}
 		dl := time.Duration(c.Pick("deadline.ms", 0, 1, 50, 900, 2900, 3100, 5000)) * time.Millisecond
 
 		var ctx context.Context
@@ -87,6 +190,9 @@ func runC10(t *testing.T, c *choice.Stream, r *Result, opt RunOpt) {
 					names = []string{"input"}
 				}
 				name, j := names[c.Draw("cb.name", len(names))], 1+c.Draw("cb.j", 3)
+				if forcedCb != "" {
+					name, j = forcedCb, forcedJ
+				}
 				sc.rec.OnCall = func(n string, k int) {
 					if n == name && k == j {
 						e.Sim.Note("cancel", "inside callback "+n)
@@ -99,6 +205,8 @@ func runC10(t *testing.T, c *choice.Stream, r *Result, opt RunOpt) {
 						return false
 					}
 					switch gateName {
+					case "none":
+						return false
 					case "handshake":
 						return true
 					case "bytes":
@@ -182,6 +290,8 @@ func runC10(t *testing.T, c *choice.Stream, r *Result, opt RunOpt) {
 			inCall = "Do"
 			e.Sim.StallProb = stallProb
 			derr := cl.Do(ctx, sc.query)
+			info.clientBytes = conn.OutLen()
+			info.calls = sc.rec.Calls
 			isDone, at, step := ctxDone()
 			if derr == nil {
 				// the query completed; a cancellation that came too late changes nothing
@@ -242,6 +352,7 @@ func runC10(t *testing.T, c *choice.Stream, r *Result, opt RunOpt) {
 			}
 		}
 	})
+	return info
 }
 
 var _ = choice.New
